@@ -329,6 +329,11 @@ func (m *Morass) Clear() error {
 		}
 	default:
 	}
+	if m.chunk != nil {
+		// A chunk that was sorted in memory and not drained is still held.
+		m.chunk = m.chunk[:0]
+	}
+	m.fast = false
 
 	return nil
 }
